@@ -25,4 +25,6 @@ def run(chk):
     from props import _state
     _state.run_alloc_refused(chk)    # a request the allocator refuses: the same primitiv::Error on both backends
     _compose.finish(chk)
+    from props import C20 as _c20
+    _c20.run_eq_leg(chk, lambda name: "Device" in name or "Random" in name)    # device construction (seeded) and random functions through the C API
     chk.trusted += ["agreement 'up to float32 rounding' on general float inputs is measured, not proved; CUDA/OpenCL backends cannot be built here"]
